@@ -483,3 +483,354 @@ Proof.
     + rewrite EM in EM'. injection EM' as <- <- <- <- <- <-.
       rewrite !py_mm_add_eq. apply HC; [exact Hsize|lia].
 Qed.
+
+(* ====================================================================================== *)
+(* 5. the two flush loops                                                                 *)
+(* ====================================================================================== *)
+Definition dir_set (out : bool) (h : N) : nd -> nd := if out then set_outh h else set_inh h.
+Definition dir_head (out : bool) (d : nd) : N := if out then outh d else inh d.
+
+Lemma store_links_some : forall out p tgs s d, tgs <> [] -> find p (tr s) = Some d ->
+  store_links out p tgs s =
+  mkT (upd (dir_set out (snd (push_stubs tgs (dir_head out d) (stubs s)))) p (tr s)) (nb s) (lastwe s)
+      (fst (push_stubs tgs (dir_head out d) (stubs s))) (rules s) (dflt s).
+Proof.
+  intros out p tgs s d Hne Hf. unfold store_links, dir_set, dir_head. destruct tgs as [|t ts]; [congruence|].
+  rewrite Hf. destruct (push_stubs (t :: ts) (if out then outh d else inh d) (stubs s)) as [st' h']. reflexivity.
+Qed.
+
+(* the trie file after store_links: the block of the page rewritten with the new head *)
+Lemma store_links_ft : forall out l tgs s d lt ct rt, Inv18 s -> tgs <> [] ->
+  (forall tg, In tg tgs -> exists p d, find p (tr s) = Some d /\ addr d = tg) ->
+  find_sub (lru_iter l) (tr s) = Some (Nd d lt ct rt) ->
+  let s' := store_links out (lru_iter l) tgs s in
+  let h' := snd (push_stubs tgs (dir_head out d) (stubs s)) in
+  Inv18 s' /\
+  ft (files_of s') =
+  ft (apply (TSet (addr d) (main_block (dir_set out h' d) (root_addr lt) (root_addr rt) (root_addr ct))) (files_of s)).
+Proof.
+  intros out l tgs s d lt ct rt Hinv Hne Htgs Hfs s' h'.
+  destruct (store_links_Tr out l tgs s Hinv Htgs) as (Eap & Hinv' & _). fold s' in Eap, Hinv'.
+  split; [exact Hinv'|]. rewrite <- Eap.
+  assert (Hf : find (lru_iter l) (tr s) = Some d) by (rewrite find_of_sub, Hfs; reflexivity).
+  assert (Ew : store_links_w out l tgs s =
+               map LApp (skipn (length (stubs s)) (fst (push_stubs tgs (dir_head out d) (stubs s)))) ++ node_write l s').
+  { unfold store_links_w. destruct tgs as [|t ts]; [congruence|]. rewrite Hf. reflexivity. }
+  rewrite Ew, apply_all_app, apply_lapps, node_write_nwp.
+  assert (Etr : tr s' = upd (dir_set out h') (lru_iter l) (tr s)).
+  { unfold s'. rewrite (store_links_some out _ tgs s d Hne Hf). reflexivity. }
+  rewrite Etr.
+  assert (Hs : forall d0, stem (dir_set out h' d0) = stem d0) by (intro d0; unfold dir_set; destruct out; reflexivity).
+  assert (Ha : forall d0, addr (dir_set out h' d0) = addr d0) by (intro d0; unfold dir_set; destruct out; reflexivity).
+  destruct (placed_upd (dir_set out h') Hs Ha (lru_iter l) (tr s) d lt ct rt Hfs) as (_ & _ & _ & _ & E3 & _).
+  unfold nwp. rewrite E3, Ha. reflexivity.
+Qed.
+
+Lemma trep_ft : forall f f' sg, ft f' = ft f -> trep f sg -> trep f' sg.
+Proof. intros f f' sg E (H1 & H2 & H3). unfold trep. rewrite E. repeat split; assumption. Qed.
+
+Lemma head_ok_wf_head : forall st h, head_ok (length st) h -> wf_head st h.
+Proof. intros st h [->|(j & Hj & ->)]; [left; reflexivity|right; exists j; split; [exact Hj|reflexivity]]. Qed.
+
+Lemma blk_head_main : forall out d la ra ca, blk_head out (main_block d la ra ca) = dir_head out d.
+Proof. intros [|] d la ra ca; reflexivity. Qed.
+
+Lemma blk_set_head_main : forall out h d la ra ca,
+  blk_set_head out h (main_block d la ra ca) = main_block (dir_set out h d) la ra ca.
+Proof. intros [|] h d la ra ca; reflexivity. Qed.
+
+Lemma main_block_encodable_head : forall out h d la ra ca, h < 2 ^ 64 ->
+  blk_encodable (main_block d la ra ca) -> blk_encodable (main_block (dir_set out h d) la ra ca).
+Proof.
+  intros out h d la ra ca Hh (H1 & H2 & H3 & H4 & H5 & H6 & H7 & H8 & H9).
+  unfold main_block, dir_set in *. destruct out;
+  cbn [b_stem b_flags b_we b_left b_right b_child b_parent b_out b_in set_outh set_inh stem we par outh inh] in *;
+  repeat split; try assumption; apply flags_of_lt.
+Qed.
+
+(* the invariant of the flush loops *)
+Definition FInv (s : traph) (sg sgl : py_pm) (pages : list (bytes * py_node)) : Prop :=
+  Inv18 s /\ trep (files_of s) sg /\ hk (encode_trie_header (lastwe s)) sg /\ lrep (stubs s) sgl /\ pages_ok s pages.
+
+Lemma store_links_fields : forall out p tgs s, let s' := store_links out p tgs s in
+  nb s' = nb s /\ lastwe s' = lastwe s /\ rules s' = rules s /\ dflt s' = dflt s /\
+  (length (stubs s) <= length (stubs s'))%nat /\ keeps s s'.
+Proof.
+  intros out p tgs s. cbv zeta. destruct tgs as [|t ts]; [rewrite store_links_nil; repeat split; auto; apply keeps_refl|].
+  destruct (find p (tr s)) as [d|] eqn:Hf.
+  - rewrite (store_links_some out p (t :: ts) s d ltac:(discriminate) Hf). cbn [nb lastwe rules dflt stubs tr].
+    repeat split; auto.
+    + clear. generalize (dir_head out d) (stubs s). induction (t :: ts) as [|x xs IH]; intros h st; [cbn; lia|].
+      rewrite LinkFacts.push_stubs_cons. specialize (IH (stub_addr (length st)) (st ++ [(x, h)])).
+      rewrite app_length in IH. cbn [length] in IH. lia.
+    + intros q d0 Hq. cbn [tr].
+      assert (Hs : forall d1, stem (dir_set out (snd (push_stubs (t :: ts) (dir_head out d) (stubs s))) d1) = stem d1)
+        by (intro d1; unfold dir_set; destruct out; reflexivity).
+      destruct (find_upd_keeps _ p (tr s) q d0 Hs Hq) as [E|(_ & E)]; rewrite E; eexists; split; try reflexivity.
+      unfold dir_set; destruct out; reflexivity.
+  - unfold store_links. rewrite Hf. repeat split; auto. apply keeps_refl.
+Qed.
+
+Lemma find_to_sub : forall p t d, find p t = Some d -> exists l c r, find_sub p t = Some (Nd d l c r).
+Proof.
+  intros p t d H. rewrite find_of_sub in H. destruct (find_sub p t) as [[|d0 l c r]|]; try discriminate H.
+  injection H as ->. eauto.
+Qed.
+
+(* one turn of a flush loop = the model's store_links *)
+Lemma flush_step_spec : forall out s sg sgl pages p others,
+  FInv s sg sgl pages -> py_dict_mem p pages = true -> (forall o, In o others -> py_dict_mem o pages = true) ->
+  let s' := fl_step out s (p, others) in
+  fits (saddr (length (stubs s'))) ->
+  exists sg' sgl', flush_step out pages (Some (sg, sgl)) (p, others) = Some (sg', sgl') /\ FInv s' sg' sgl' pages.
+Proof.
+  intros out s sg sgl pages p others (Hinv & Hrep & Hhk & Hlrep & Hp) Hmp Hmo s' Hfit.
+  destruct (dict_mem_get _ p pages Hmp) as [nd Hg].
+  destruct (Hp p nd Hg) as (d & Hf & Hb).
+  destruct (find_to_sub _ _ _ Hf) as (lt & ct & rt & Hfs).
+  pose proof (find_sub_subt _ _ _ Hfs) as Hsub.
+  unfold flush_step. rewrite Hg. unfold py_node_refresh. rewrite Hb.
+  pose proof (read_subt s Hinv d lt ct rt nd sg Hsub Hrep) as [Hna Hrep1]. cbv zeta in Hna, Hrep1.
+  pose proof (py_node_read_o_same nd sg (Some (addr d))) as [HS _].
+  destruct (py_node_read_o nd sg (Some (addr d))) as [nd1 sg1]. cbn [fst snd] in Hna, Hrep1, HS.
+  pose proof (hk_same _ _ _ Hhk HS) as Hhk1.
+  rewrite (blocks_of_spec s pages others Hp Hmo).
+  unfold s', fl_step. cbn [fst snd]. unfold s', fl_step in Hfit. cbn [fst snd] in Hfit.
+  set (tgs := map (fun o => addr_of o s) others) in *.
+  destruct Hna as (Hex & Hblk & Hdata & Hstem).
+  set (b := main_block d (root_addr lt) (root_addr rt) (root_addr ct)) in *.
+  assert (Htree : forall tg, In tg tgs -> exists q dq, find q (tr s) = Some dq /\ addr dq = tg).
+  { intros tg Hin. apply in_map_iff in Hin. destruct Hin as (o & <- & Ho).
+    destruct (dict_mem_get _ o pages (Hmo o Ho)) as [ndo Hgo]. destruct (Hp o ndo Hgo) as (dq & Hfo & _).
+    exists (lru_iter o), dq. split; [exact Hfo|]. unfold addr_of. rewrite Hfo. reflexivity. }
+  assert (Htok : Forall target_ok tgs).
+  { apply Forall_forall. intros tg Hin. destruct (Htree tg Hin) as (q & dq & Hq & <-).
+    destruct (find_to_sub _ _ _ Hq) as (l1 & c1 & r1 & Hq').
+    exact (root_addr_ge s Hinv dq l1 c1 r1 (find_sub_subt _ _ _ Hq')). }
+  pose proof (py_node_links_blk nd1 b out Hdata) as HL. unfold b in HL. rewrite blk_head_main in HL. fold b in HL.
+  assert (Hhead : wf_head (stubs s) (py_node_links nd1 out)).
+  { rewrite HL. apply head_ok_wf_head. destruct (I_heads s Hinv _ _ Hf) as [Ho Hi]. unfold dir_head. destruct out; assumption. }
+  destruct (py_ls_add_links_spec nd1 sg1 sgl (stubs s) tgs out Hlrep Htok Hhead) as (sgl' & Hlrep' & E).
+  rewrite E. clear E. rewrite HL in Hlrep' |- *.
+  destruct (store_links_fields out (lru_iter p) tgs s) as (_ & Elw & _ & _ & _ & Hkeep).
+  destruct tgs as [|t ts] eqn:Etgs.
+  - (* no target: nothing is written *)
+    exists sg1, sgl'. split; [reflexivity|]. rewrite store_links_nil.
+    split; [exact Hinv|]. split; [exact Hrep1|]. split; [exact Hhk1|]. split; [exact Hlrep'|exact Hp].
+  - cbv beta iota. rewrite <- Etgs in *. assert (Hne : tgs <> []) by (rewrite Etgs; discriminate).
+    set (h' := snd (push_stubs tgs (dir_head out d) (stubs s))) in *.
+    set (st' := fst (push_stubs tgs (dir_head out d) (stubs s))) in *.
+    pose proof (store_links_some out (lru_iter p) tgs s d Hne Hf) as Es'. fold h' st' in Es'.
+    set (s2 := store_links out (lru_iter p) tgs s) in *.
+    assert (Est : stubs s2 = st') by (rewrite Es'; reflexivity).
+    destruct (store_links_ft out p tgs s d lt ct rt Hinv Hne Htree Hfs) as [Hinv' Eft]. fold s2 h' in Hinv', Eft.
+    rewrite (py_node_set_links_blk nd1 b out h' Hdata). unfold b at 1. rewrite blk_set_head_main.
+    set (b' := main_block (dir_set out h' d) (root_addr lt) (root_addr rt) (root_addr ct)) in *.
+    set (n2 := nd_set_data (tblock_vals b') nd1).
+    pose proof Hrep1 as (Hbs & _ & _).
+    assert (Hex2 : nd_exists n2 = true) by exact Hex.
+    assert (Hblk2 : nd_block n2 = Some (addr d)) by exact Hblk.
+    pose proof (blk_at_main_subt s Hinv d lt ct rt Hsub) as Hba. fold b in Hba.
+    destruct (blk_at_off _ _ _ Hba) as [Ha Hn].
+    assert (Hb' : blk_encodable b').
+    { apply main_block_encodable_head; [|exact (trep_nth_enc _ _ _ _ Hrep1 Hn)].
+      unfold h'. rewrite (push_stubs_head tgs _ _ Hne). fold st'. rewrite <- Est.
+      unfold fits, saddr in Hfit. unfold ssz in *. lia. }
+    pose proof (py_node_write_existing_gen n2 sg1 (addr d) Hex2 Hblk2 Hbs) as Ew.
+    assert (Hok2 : okN n2).
+    { intros a Ea. rewrite Hblk2 in Ea. injection Ea as <-.
+      pose proof (root_addr_ge s Hinv d lt ct rt Hsub) as Hge. change py_first_data_block with 128 in Hge. exact Hge. }
+    destruct (py_node_write_frame' n2 sg1 _ _ _ Hhk1 Hok2 Ew) as [Hhk3 _].
+    rewrite Ew. cbn [snd].
+    eexists _, sgl'. split; [reflexivity|].
+    split; [exact Hinv'|]. split; [|split; [rewrite Elw; exact Hhk3|split; [rewrite Est; exact Hlrep'|]]].
+    + apply (trep_ft _ _ _ Eft).
+      change (nd_data n2) with (tblock_vals b'). fold (encode_tblock b').
+      rewrite Ha. exact (trep_set (files_of s) sg1 (tidx (addr d)) b b' _ Hrep1 Hn Hb').
+    + exact (pages_ok_keeps s s2 pages Hkeep Hp).
+Qed.
+
+Lemma flush_fields : forall out mm s, let s' := fold_left (fl_step out) mm s in
+  nb s' = nb s /\ lastwe s' = lastwe s /\ rules s' = rules s /\ dflt s' = dflt s /\
+  (length (stubs s) <= length (stubs s'))%nat.
+Proof.
+  intros out mm. induction mm as [|[p others] mm IH]; intro s; [cbn; repeat split; auto|].
+  cbn [fold_left]. specialize (IH (fl_step out s (p, others))). cbv zeta in IH.
+  destruct IH as (H1 & H2 & H3 & H4 & H5).
+  destruct (store_links_fields out (lru_iter p) (map (fun o => addr_of o s) others) s) as (G1 & G2 & G3 & G4 & G5 & _).
+  unfold fl_step in *. cbn [fst snd] in *. rewrite H1, H2, H3, H4. repeat split; auto. lia.
+Qed.
+
+(* a flush loop = the model's flush_links *)
+Lemma flush_loop_spec : forall out pages mm s sg sgl,
+  FInv s sg sgl pages -> mm_in pages mm ->
+  let s' := flush_links out mm s in
+  fits (saddr (length (stubs s'))) ->
+  exists sg' sgl', fold_left (flush_step out pages) mm (Some (sg, sgl)) = Some (sg', sgl') /\ FInv s' sg' sgl' pages.
+Proof.
+  intros out pages mm. induction mm as [|[p others] mm IH]; intros s sg sgl HF Hm s' Hfit.
+  - exists sg, sgl. split; [reflexivity|exact HF].
+  - unfold s' in *. clear s'. rewrite flush_links_eq in *. cbn [fold_left] in *.
+    destruct (Hm p others (or_introl eq_refl)) as [Hmp Hmo].
+    destruct (flush_fields out mm (fl_step out s (p, others))) as (_ & _ & _ & _ & Hlen).
+    destruct (flush_step_spec out s sg sgl pages p others HF Hmp Hmo) as (sg1 & sgl1 & E & HF1).
+    { exact (fits_addr_le _ _ Hlen Hfit). }
+    rewrite E.
+    specialize (IH (fl_step out s (p, others)) sg1 sgl1 HF1). cbv zeta in IH. rewrite flush_links_eq in IH.
+    apply IH; [|exact Hfit]. intros k vs Hin. apply Hm. right. exact Hin.
+Qed.
+
+(* ====================================================================================== *)
+(* 6. Traph.add_links                                                                     *)
+(* ====================================================================================== *)
+(* on every state satisfying the invariant, whose flagged anchors all have their rule in RAM *)
+Theorem py_traph_add_links_state_spec : forall s, Inv18 s -> root_first s -> anchors_known s ->
+  forall rm hd sg sgl links, ramrep s rm -> hrep s hd sg -> lrep (stubs s) sgl ->
+  Forall (fun l => wf_lru (fst l) /\ wf_lru (snd l)) links ->
+  let r := Traph.add_links links s in
+  let s' := fst r in
+  nb s' * 128 < 2 ^ 64 -> lastwe s + N.of_nat (2 * length links) < 2 ^ 32 -> fits (saddr (length (stubs s'))) ->
+  exists hd' sg' sgl' n c, snd r = Report n c /\
+    py_traph_add_links rm hd sg sgl links = Some (hd', sg', sgl', report_of n c) /\
+    hrep s' hd' sg' /\ lrep (stubs s') sgl' /\ ramrep s' rm /\ Inv18 s'.
+Proof.
+  intros s Hinv Hroot Hk rm hd sg sgl links Hram Hh Hl Hwf r s'. unfold s', r. clear s' r.
+  rewrite add_links_FM.
+  assert (HI0 : SInv rm s [] [] hd sg []).
+  { split; [exact Hinv|]. split; [exact Hroot|]. split; [exact Hk|]. split; [exact Hram|]. split; [exact Hh|].
+    split; [intros w []|]. split; [intros l nd Hg; discriminate Hg|reflexivity]. }
+  destruct (first_loop_spec rm sgl links s 0 [] [] [] [] hd sg [] HI0 ltac:(intros k vs []) ltac:(intros k vs []) Hwf)
+    as (s1 & n1 & c1 & seen1 & outs1 & ins1 & EM & _ & Hst & HC).
+  rewrite EM. cbn [fst snd]. rewrite !flush_links_eq.
+  set (s2 := fold_left (fl_step true) outs1 s1). set (s3 := fold_left (fl_step false) ins1 s2).
+  destruct (flush_fields true outs1 s1) as (Enb2 & Elw2 & Erl2 & Edf2 & _). fold s2 in Enb2, Elw2, Erl2, Edf2.
+  destruct (flush_fields false ins1 s2) as (Enb3 & Elw3 & Erl3 & Edf3 & Hlen3). fold s3 in Enb3, Elw3, Erl3, Edf3, Hlen3.
+  intros Hsize Hlt Hfit.
+  destruct HC as (hd1 & sg1 & pages1 & E1 & HI1 & Hmo & Hmi); [rewrite <- Enb2, <- Enb3; exact Hsize|exact Hlt|].
+  destruct HI1 as (Hinv1 & _ & _ & Hram1 & Hh1 & _ & Hp1 & _).
+  assert (HF1 : FInv s1 sg1 sgl pages1).
+  { split; [exact Hinv1|]. split; [exact (proj1 Hh1)|]. split; [exact (hrep_hk _ _ _ Hh1)|].
+    split; [rewrite Hst; exact Hl|exact Hp1]. }
+  destruct (flush_loop_spec true pages1 outs1 s1 sg1 sgl HF1 Hmo) as (sg2 & sgl2 & E2 & HF2).
+  { rewrite flush_links_eq. fold s2. exact (fits_addr_le _ _ Hlen3 Hfit). }
+  rewrite flush_links_eq in HF2. fold s2 in HF2.
+  destruct (flush_loop_spec false pages1 ins1 s2 sg2 sgl2 HF2 Hmi) as (sg3 & sgl3 & E3 & HF3).
+  { rewrite flush_links_eq. fold s3. exact Hfit. }
+  rewrite flush_links_eq in HF3. fold s3 in HF3.
+  exists hd1, sg3, sgl3, n1, c1. split; [reflexivity|]. split.
+  - rewrite add_links_code_eq. change py_report_new with (report_of 0 []). rewrite E1, E2, E3. reflexivity.
+  - destruct HF3 as (Hinv3 & Hrep3 & Hhk3 & Hlrep3 & _). split; [|split; [exact Hlrep3|split; [|exact Hinv3]]].
+    + apply hrep_intro; [exact Hrep3| |exact Hhk3]. rewrite Elw3, Elw2. exact (proj1 (proj2 Hh1)).
+    + destruct Hram1 as [G1 G2]. split; congruence.
+Qed.
+
+(* the requested statement, with the hypothesis that every flagged anchor of the state has its rule in the RAM table (without it
+   the statement is false: GenTraphPEx) *)
+Theorem py_traph_add_links_spec : forall d rs h, wf_rules rs -> Forall wf_op h ->
+  let s := run d rs h in
+  anchors_known s ->
+  forall rm hd sg sgl links, ramrep s rm -> hrep s hd sg -> lrep (stubs s) sgl ->
+  Forall (fun l => wf_lru (fst l) /\ wf_lru (snd l)) links ->
+  let r := Traph.add_links links s in
+  let s' := fst r in
+  nb s' * 128 < 2 ^ 64 -> lastwe s + N.of_nat (2 * length links) < 2 ^ 32 -> fits (saddr (length (stubs s'))) ->
+  exists hd' sg' sgl' n c, snd r = Report n c /\
+    py_traph_add_links rm hd sg sgl links = Some (hd', sg', sgl', report_of n c) /\
+    hrep s' hd' sg' /\ lrep (stubs s') sgl' /\ ramrep s' rm.
+Proof.
+  intros d rs h _ Hh s Hk rm hd sg sgl links Hram Hhr Hl Hwf r s' Hsize Hlt Hfit.
+  destruct (py_traph_add_links_state_spec s (run_Inv18 d rs h Hh) (run_root_first d rs h) Hk rm hd sg sgl links Hram Hhr Hl Hwf
+              Hsize Hlt Hfit) as (hd' & sg' & sgl' & n & c & Er & E & H1 & H2 & H3 & _).
+  exists hd', sg', sgl', n, c. auto.
+Qed.
+
+
+(* on every history whose reopens re-supply the rules of the flagged anchors (in particular: no reopen), the condition holds *)
+From Traph Require GenTraphPReach.
+Corollary py_traph_add_links_reach : forall d rs h, wf_rules rs -> Forall wf_op h ->
+  GenTraphPReach.reopens_resupply h (init d rs) ->
+  let s := run d rs h in
+  forall rm hd sg sgl links, ramrep s rm -> hrep s hd sg -> lrep (stubs s) sgl ->
+  Forall (fun l => wf_lru (fst l) /\ wf_lru (snd l)) links ->
+  let r := Traph.add_links links s in
+  let s' := fst r in
+  nb s' * 128 < 2 ^ 64 -> lastwe s + N.of_nat (2 * length links) < 2 ^ 32 -> fits (saddr (length (stubs s'))) ->
+  exists hd' sg' sgl' n c, snd r = Report n c /\
+    py_traph_add_links rm hd sg sgl links = Some (hd', sg', sgl', report_of n c) /\
+    hrep s' hd' sg' /\ lrep (stubs s') sgl' /\ ramrep s' rm.
+Proof.
+  intros d rs h Hrs Hh Hre s. apply (py_traph_add_links_spec d rs h Hrs Hh).
+  apply GenTraphPReach.run_anchors_known; assumption.
+Qed.
+
+Print Assumptions py_traph_add_page_int_node.
+Print Assumptions py_traph_add_links_state_spec.
+Print Assumptions py_traph_add_links_spec.
+Print Assumptions py_traph_add_links_reach.
+
+
+(* ====================================================================================== *)
+(* 7. non-vacuity                                                                         *)
+(* ====================================================================================== *)
+From Traph Require PropsEx.
+Definition hd0 : py_thdr := mk_th [VNum (lastwe PropsEx.exs); VBytes version_bytes].
+Definition rm0 : py_ram := mk_ram (rules PropsEx.exs) (dflt PropsEx.exs).
+Definition sgl0 : py_pm := mk_pm 16 (link_file PropsEx.exs) 0.
+Definition k_l1 : bytes := [115;58;104;116;116;112;124;104;58;111;114;103;124;104;58;122;124;112;58;113;124].  (* s:http|h:org|h:z|p:q| *)
+Definition k_l2 : bytes := PropsEx.ex_px ++ [112;58;113;124].
+(* a repeated link, a self link, a new domain (one webentity created by the default rule), a known page *)
+Definition ex_links : list (bytes * bytes) := [(k_l2, k_l1); (PropsEx.ex_pxy, k_l2); (k_l2, k_l1); (k_l2, k_l2)].
+
+(* the translated add_links run on the bytes of both files of a concrete state: the report is the model's, and so are the bytes
+   of the trie file and of the link file (8 stubs appended), the counter in RAM and in the header block *)
+Example ex_add_links :
+  let r := Traph.add_links ex_links PropsEx.exs in
+  match py_traph_add_links rm0 hd0 GenTrieFacts.ex_sg sgl0 ex_links with
+  | Some (hd', sg', sgl', rp) =>
+      snd r = Report (rp_nb_created_pages rp) (rp_created_webentities rp) /\
+      Bytes.beq (pm_array sg') (trie_file (fst r)) = true /\
+      Bytes.beq (pm_array sgl') (link_file (fst r)) = true /\
+      py_thdr_last_webentity_id hd' = lastwe (fst r) /\
+      rp_nb_created_pages rp = 2 /\ map fst (rp_created_webentities rp) = [4] /\
+      length (stubs PropsEx.exs) = 8%nat /\ length (stubs (fst r)) = 16%nat /\
+      Bytes.beq (pm_array sg') (pm_array GenTrieFacts.ex_sg) = false
+  | None => False
+  end.
+Proof. vm_compute. repeat split; reflexivity. Qed.
+
+(* the hypotheses of the theorem are met by this state, and the theorem then gives the same run *)
+Lemma ex_no_reopen : Forall GenTraphPReach.not_reopen PropsEx.exh.
+Proof. unfold PropsEx.exh. repeat constructor. Qed.
+
+Example ex_theorem_applies :
+  exists hd' sg' sgl' n c,
+    snd (Traph.add_links ex_links PropsEx.exs) = Report n c /\
+    py_traph_add_links rm0 hd0 GenTrieFacts.ex_sg sgl0 ex_links = Some (hd', sg', sgl', report_of n c) /\
+    hrep (fst (Traph.add_links ex_links PropsEx.exs)) hd' sg' /\
+    lrep (stubs (fst (Traph.add_links ex_links PropsEx.exs))) sgl'.
+Proof.
+  assert (Hrun : run Domain [] PropsEx.exh = PropsEx.exs) by (unfold PropsEx.exs; reflexivity).
+  assert (Hh : hrep PropsEx.exs hd0 GenTrieFacts.ex_sg).
+  { split; [|split; [reflexivity|]].
+    - apply (trep_of_file PropsEx.exs 0). apply Forall_forall. intros b Hb. apply blk_encodableb_ok.
+      assert (Hall : forallb blk_encodableb (ft (files_of PropsEx.exs)) = true) by (vm_compute; reflexivity).
+      rewrite forallb_forall in Hall. apply Hall. exact Hb.
+    - vm_compute. reflexivity. }
+  assert (Hl : lrep (stubs PropsEx.exs) sgl0) by (split; reflexivity).
+  assert (Hwf : Forall (fun l => wf_lru (fst l) /\ wf_lru (snd l)) ex_links).
+  { unfold ex_links. repeat constructor; cbn [fst snd]; PropsEx.wf_lru_tac. }
+  pose proof (GenTraphPReach.no_reopen_resupply PropsEx.exh (init Domain []) ex_no_reopen) as Hre.
+ 
+  pose proof (py_traph_add_links_reach Domain [] PropsEx.exh PropsEx.ex_rules_wf PropsEx.exh_wf Hre) as HA.
+ 
+  cbv zeta in HA. rewrite Hrun in HA.
+  assert (Hram : ramrep PropsEx.exs rm0) by (split; reflexivity).
+  assert (H1 : nb (fst (Traph.add_links ex_links PropsEx.exs)) * 128 < 2 ^ 64) by (vm_compute; reflexivity).
+  assert (H2 : lastwe PropsEx.exs + N.of_nat (2 * length ex_links) < 2 ^ 32) by (vm_compute; reflexivity).
+  assert (H3 : fits (saddr (length (stubs (fst (Traph.add_links ex_links PropsEx.exs)))))) by (vm_compute; reflexivity).
+  destruct (HA rm0 hd0 GenTrieFacts.ex_sg sgl0 ex_links Hram Hh Hl Hwf H1 H2 H3)
+    as (hd' & sg' & sgl' & n & c & Er & E & Hh' & Hl' & _).
+  exists hd', sg', sgl', n, c. auto.
+Qed.
+Print Assumptions ex_add_links.
+Print Assumptions ex_theorem_applies.
